@@ -30,7 +30,7 @@ def one(patch):
 
 
 if __name__ == "__main__":
-    patches = sorted(glob.glob(os.path.join(sys.argv[1], "*", "patch.diff")), key=lambda p: (len(p), p))
+    patches = sorted(glob.glob(os.path.join(os.path.abspath(sys.argv[1]), "*", "patch.diff")), key=lambda p: (len(p), p))
     bad = 0
     with concurrent.futures.ThreadPoolExecutor(max_workers=3) as ex:
         for patch, st, res in ex.map(one, patches):
